@@ -12,6 +12,7 @@ twins
   reformat     every .py file is re-emitted with ast.unparse (comments gone, layout and quoting normalised)
   rename       every function-local variable (not parameters, not closure-captured) gets the suffix _tw
   reorder      consecutive independent simple assignments of literals at function start are reversed
+  invert_if    every `if c: A else: B` (no elif) becomes `if not c: B else: A`
   docstrings   a comment line is added at the top and bottom of every file
   <name>       every selftest/twin_patches/<name>.diff: a hand-written behaviour-preserving rewrite of one mechanism
                (nested abort guard, reset by handler+re-raise, counter write loop, seen-set as dict, ...)
@@ -132,6 +133,28 @@ def t_reorder(root):
             open(p, 'w').write(head + ast.unparse(tree) + '\n')
 
 
+class _InvertIf(ast.NodeTransformer):
+    """`if c: A else: B` -> `if not c: B else: A` for statements with a non-empty, non-elif else branch"""
+    def visit_If(self, node):
+        self.generic_visit(node)
+        if node.orelse and not (len(node.orelse) == 1 and isinstance(node.orelse[0], ast.If)):
+            test = node.test
+            if isinstance(test, ast.UnaryOp) and isinstance(test.op, ast.Not):
+                new_test = test.operand
+            else:
+                new_test = ast.UnaryOp(op=ast.Not(), operand=test)
+            return ast.copy_location(ast.If(test=new_test, body=node.orelse, orelse=node.body), node)
+        return node
+
+
+def t_invert_if(root):
+    for p in py_files(root):
+        src = open(p).read()
+        tree = _InvertIf().visit(ast.parse(src))
+        head = src.split('\n', 1)[0] + '\n' if src.startswith('#!') else ''
+        open(p, 'w').write(head + ast.unparse(ast.fix_missing_locations(tree)) + '\n')
+
+
 def t_docstrings(root):
     for p in py_files(root):
         src = open(p).read()
@@ -147,7 +170,8 @@ def t_docstrings(root):
         open(p, 'w').write(head + '# twin: harmless comment\n' + body + '\n# trailing comment\n')
 
 
-TWINS = {'reformat': t_reformat, 'rename': t_rename, 'reorder': t_reorder, 'docstrings': t_docstrings}
+TWINS = {'reformat': t_reformat, 'rename': t_rename, 'reorder': t_reorder, 'docstrings': t_docstrings,
+         'invert_if': t_invert_if}
 
 
 def _patch_twin(path):
